@@ -1,3 +1,4 @@
+from copy import copy
 from math import isclose
 from collections import abc
 from typing import Union, Tuple, Mapping, Iterable, Literal, Callable, Optional, Any
@@ -392,7 +393,8 @@ class SafeLearner(Learner):
         #this logic should guarantee that we can differentiate prediction formats
         #it allows us to "is" checks to see if a returned value "is" one of the actions
         if self._prev_actions != actions:
-            self._prev_actions = actions
+            #keep a copy, the caller may go on to edit its list of actions in place
+            self._prev_actions = copy(actions)
             make_safe = lambda a: float(a) if a in [0,1] else a
             safe_list = lambda A: A if (0 not in A and 1 not in A) else [ make_safe(a) for a in A]
             try:
